@@ -183,6 +183,11 @@ def run(tier, seed):
             ref = next(j for j in jobs if j[0] == e["group"])
             me = next(j for j in jobs if j[0] == e["group"] and j[1] == e["input"])
             bd, sk_ = (me[4], "") if len(me) > 4 else (bindir, skip)
+            # a difference must REPRODUCE: both inputs are observed a second time (a single unexplained transient difference was
+            # seen once in ~2000 observations under heavy machine load; a property of the code shows on every observation)
+            if lackey(bd, ref[2], ref[3], skip=sk_)["blocks"] == lackey(bd, me[2], me[3], skip=sk_)["blocks"]:
+                chk.cov["transient_observation_differences"] = chk.cov.get("transient_observation_differences", 0) + 1
+                continue
             a = lackey(bd, ref[2], ref[3], dump=blk, skip=sk_).splitlines()
             b = lackey(bd, me[2], me[3], dump=blk, skip=sk_).splitlines()
             diff = [(i, x, y) for i, (x, y) in enumerate(zip(a, b)) if x != y][:6]
